@@ -1,5 +1,6 @@
 use crate::formatting::FormattingError;
 use crate::{ErrorKind, FormatReport};
+use annotate_snippets::renderer::DEFAULT_TERM_WIDTH;
 use annotate_snippets::{Annotation, Level, Renderer, Snippet};
 use std::fmt::{self, Display};
 
@@ -76,6 +77,13 @@ impl<'a> Display for FormatReportFormatter<'a> {
                     .annotations(annotation(error));
                 message = message.snippet(snippet);
 
+                // The renderer trims source lines that are wider than its terminal width and, doing
+                // so, slices them at display columns as if those were byte offsets: it panics on a
+                // long line of multi-byte characters. A width the line cannot reach keeps it from
+                // trimming.
+                let renderer = renderer
+                    .clone()
+                    .term_width(error.line_buffer.len() + DEFAULT_TERM_WIDTH);
                 writeln!(f, "{}\n", renderer.render(message))?;
             }
         }
